@@ -34,7 +34,7 @@ Init == /\ alive = TRUE /\ steps = 0 /\ outcome = "none"
         /\ \/ Mode = "proc" /\ cfg \in Configs
            \/ Mode = "orient" /\ cfg \in {c \in Configs : c.size = "small" /\ c.absorbing = FALSE
                                             /\ c.shape \in {"spheroid_prolate", "cylinder_flat"}
-                                            /\ c.a = 3 /\ c.b \in {4, 6} /\ c.g \in {3, 4, 8}}
+                                            /\ c.a = 3 /\ c.b \in {3, 4, 6, 7} /\ c.g \in {3, 4, 8}}   \* b = 3, 7: axis exactly along / against the beam
 
 (* one public call in a fresh configuration *)
 Call(o) == /\ Mode = "proc" /\ alive /\ steps = 0
